@@ -49,7 +49,7 @@ func runC12(c *Ctx) {
 			if op.Kind != "recv" {
 				continue
 			}
-			if CallResult(op.Chan, 0, "time.After") != nil || isDoneChan(op.Chan) {
+			if isTimerChan(op.Chan) || isDoneChan(op.Chan) {
 				continue // the alternative itself
 			}
 			n++
@@ -63,7 +63,7 @@ func runC12(c *Ctx) {
 			alt := false
 			for k, st := range op.Select.States {
 				if k != op.State && st.Dir == types.RecvOnly {
-					if CallResult(st.Chan, 0, "time.After") != nil || isDoneChan(st.Chan) {
+					if isTimerChan(st.Chan) || isDoneChan(st.Chan) {
 						alt = true
 					}
 				}
@@ -571,13 +571,9 @@ func c12ErrTo400(c *Ctx, p *Prog, fn *ssa.Function, call ssa.Instruction, key st
 		}
 	}
 	if ok && forget {
-		hasDel := false
-		for _, in := range blk.Instrs {
-			if IsCall(in, "(*sync.Map).Delete") {
-				hasDel = true
-			}
-		}
-		if !hasDel {
+		// every path of the error branch to a return deletes the session
+		miss, _ := (&Walk{Target: IsReturn, Avoid: func(i ssa.Instruction) bool { return IsCall(i, "(*sync.Map).Delete") }}).FromBlock(blk)
+		if miss != nil {
 			ok, why = false, "a failed poll does not delete the session from the table"
 		}
 	}
